@@ -228,7 +228,7 @@ class Interp:
         members = self.engine.enum_members(v.cls)
         return v.cls, members, z3.IntVal(members.index(v.name))
 
-    def try_nofork(self, assumption, thunk):
+    def try_nofork(self, assumption, thunk, quantified=False):
         """Evaluate thunk() under `assumption` without forking.  Returns value.
 
         Assumptions made inside are re-asserted guarded by `assumption` afterwards.
@@ -255,6 +255,11 @@ class Interp:
             del ctx.pc[pc_len:]
             del ctx.qfacts[q_len:]
             if ok:
+                if quantified and inner:
+                    # facts about fresh symbols (fold / model definitions) made while evaluating a
+                    # quantified body would be tied to the bound variable: not expressible -> reject
+                    raise Unsupported("a model with side assumptions (next/len/sorted/bisect/...) is evaluated inside a "
+                                      "quantified spec body: hoist that sub-expression out of the lambda")
                 for z in inner:
                     g = z3.Implies(assumption, z) if assumption is not None else z
                     ctx.assume(g)
@@ -898,7 +903,17 @@ class Interp:
         if isinstance(base, SymSeq):
             i = zof(idx, "int")
             i2 = z3.If(i < 0, i + base.length, i)
-            if self.ctx.branch(z3.Or(i2 < 0, i2 >= base.length), "index out of range"):
+            oob = z3.Or(i2 < 0, i2 >= base.length)
+            if self.ctx.in_quantifier:
+                # inside a quantified spec body nothing can fork: being in range becomes a
+                # conjunct of the body (an out-of-range access makes the clause false)
+                try:
+                    if self.ctx.branch(oob, "index out of range"):
+                        raise PyRaise("IndexError")
+                except NeedFork:
+                    self.ctx.side_conds[-1].append(z3.Not(oob))
+                return base.get(i2)
+            if self.ctx.branch(oob, "index out of range"):
                 raise PyRaise("IndexError")
             return base.get(i2)
         if isinstance(base, SymMap):
@@ -1007,6 +1022,12 @@ class Interp:
             return f.call(self, args, kwargs)
         if isinstance(f, GhostSeq):
             return f.at(zof(self.unwrap(args[0]), "int"))
+        if isinstance(f, VRef):
+            h = self.ctx.deref(f)
+            if isinstance(h, HObj) and h.cls.startswith("ext:"):
+                return models.ext_method(self, f, h, "__call__", args, kwargs)
+            if isinstance(h, HObj):
+                return self.call_method(f, "__call__", args, kwargs)
         raise Unsupported(f"call of {f!r}")
 
     def call_method(self, obj, name, args, kwargs):
@@ -1226,11 +1247,18 @@ class Interp:
             iv = z3.Int(fresh_name("q_" + lam.args.args[0].arg))
             rng = z3.And(zof(lo, "int") <= iv, iv < zof(hi, "int"))
             lfr = Frame(fr.module, {lam.args.args[0].arg: S(iv, "int")}, closure=fr)
+            ctx.in_quantifier += 1
+            ctx.side_conds.append([])
             try:
-                body = self.try_nofork(rng, lambda: self.truth(self.eval(lam.body, lfr)))
+                body = self.try_nofork(rng, lambda: self.truth(self.eval(lam.body, lfr)), quantified=True)
             except Infeasible:
                 return name == "forall"
+            finally:
+                ctx.in_quantifier -= 1
+                side = ctx.side_conds.pop()
             body = zbool(body) if not isinstance(body, bool) else z3.BoolVal(body)
+            if side:
+                body = z3.And(*side, body)
             if name == "forall":
                 return mk(z3.ForAll([iv], z3.Implies(rng, body)), "bool")
             return mk(z3.Exists([iv], z3.And(rng, body)), "bool")
